@@ -391,6 +391,17 @@ def gen_tempname():
     s += "(* the value bound to `count` is the result of this operation *)\n"
     s += 'Definition temp_count_from : string := "%s".\n' % (which.group(1) if which else "?")
     s += "Definition temp_name_format : list name_piece := [%s].\n" % "; ".join(pieces)
+    # every other mention of the counter anywhere in the crate (code only, tests excluded): the uniqueness theorems
+    # are about calls that ALL run the program above, so nothing else may touch the counter
+    total = 0
+    for root, _, files in os.walk(SRC):
+        for fn in files:
+            if fn.endswith(".rs") and fn != "tests.rs":
+                text = strip_comments(open(os.path.join(root, fn)).read()).split("#[cfg(test)]\nmod tests {")[0]
+                total += len(re.findall(r"\bTEMP_FILE_COUNTER\b", text))
+    inside = len(re.findall(r"\bTEMP_FILE_COUNTER\b", body))
+    s += "(* mentions of TEMP_FILE_COUNTER outside its declaration and outside temp_file_name *)\n"
+    s += "Definition temp_counter_foreign_uses : N := %d.\n" % (total - inside - 1)
     return s, ops
 
 
